@@ -714,7 +714,7 @@ LEVEL_TEXT = ("Machine-checked (Coq) invariant proofs over a program-counter mod
               "early finish, detach, 400 path, body timeout), _on_connection_close, _server_request_loop and close_all_connections on top of a model of "
               "the IOStream read side: along EVERY event list (peer bytes in any segmentation, peer EOF, handler continuation, body timeout, server "
               "shutdown) and for every header parser, every request that received headers is told at most one of finish / on_connection_close, never "
-              "both, exactly one once the request loop has exited (unless detached). The model is tied to the real server by running identical schedules "
+              "both, exactly one once the request loop has exited (unless detached); the data_received chunks are a prefix of the payload of the body encoding on the wire (Content-Length and chunked grammar) and the whole payload on finish; after close_all_connections the loop has exited or waits only on a handler Future. The model is tied to the real server by running identical schedules "
               "through HTTPServer over a scripted stream under a virtual clock and comparing complete delegate traces.")
 LEVEL_NOTE = ("Trusted: Coq kernel/vm_compute; header facts (keep-alive, Expect, framing) are computed per header block by Tornado's own parser functions and "
               "the theorems quantify over every such function; FakeIOStream (writes complete at once); one connection per case; asyncio task cancellation and GC "
